@@ -639,6 +639,14 @@ class Req:
     def r_fv_worker_vectors_have_output_size(self):
         EV, IN, W, O = self.fv_anchors()
         vecs = [t["dest"]["local"] for b, t in W.calls() if core.strip_generics(core.callee_path(t) or "") == "tinyvec::arrayvec::ArrayVec::new" and not W.blocks[b]["cleanup"]]
+        # ... or created with the final length at once: from_array_len([0; N], <output size>)
+        sized = {}
+        exW = expr.Expr(self.F, W)
+        for b, t in W.calls():
+            if core.strip_generics(core.callee_path(t) or "") == "tinyvec::arrayvec::ArrayVec::from_array_len" and not W.blocks[b]["cleanup"] and len(t["args"]) == 2:
+                e = exW.of_operand(t["args"][1])
+                sized[t["dest"]["local"]] = expr.has_call(e, "get_hash_function_output_size") or expr.has_assoc(e, "OUTPUT_SIZE")
+        vecs = vecs + list(sized)
         if len(vecs) < 1:
             return (False, "no vectors created in %s" % W.path)
         detail = []
@@ -666,12 +674,12 @@ class Req:
                                 if any(x == ("const", 0) for x in expr.walk(e)) and (expr.has_call(e, "get_hash_function_output_size") or expr.has_assoc(e, "OUTPUT_SIZE")):
                                     inloop = True
             # other whole definitions must be hash outputs
-            redefs = [d for d in W.defs_of(v) if not W.blocks[d[0]]["cleanup"] and not (d[1] == "term" and core.strip_generics(core.callee_path(d[2]) or "").endswith("ArrayVec::new"))]
+            redefs = [d for d in W.defs_of(v) if not W.blocks[d[0]]["cleanup"] and not (d[1] == "term" and core.strip_generics(core.callee_path(d[2]) or "").rsplit("::", 1)[-1] in ("new", "from_array_len"))]
             red_ok = True
             for b, i, d in redefs:
                 o = flow.origin(W, d["rv"]["op"]) if i != "term" and d["k"] == "assign" and d["rv"]["k"] == "use" else (("call", b, d) if i == "term" else ("?",))
                 red_ok = red_ok and o[0] == "call" and (flow.decl_path(o[2]) or "").endswith("finalize")
-            vok = len(pushes) == 1 and not others and inloop and red_ok
+            vok = (len(pushes) == 1 and not others and inloop and red_ok) if v not in sized else (sized[v] and not pushes and not others and red_ok)
             ok = ok and vok
             detail.append("_%d: one push per iteration of 0..output size: %s, no other growth: %s, re-definitions are hash outputs: %s" % (v, inloop and len(pushes) == 1, not others, red_ok))
         return (ok, "%s: %s" % (W.path, "; ".join(detail)))
